@@ -183,6 +183,29 @@ def coxeter_sampling(tier, rng, rep):
                         else:
                             if oc is not None:
                                 rep.fail("canonical_infinite_label_has_infinite_order", f"{g1}{g2}: order {oc}", {**inp, "route": route}); return
+                # the same two representations in the coordinates that diagonalise the cosine form (keyword diagonalize=True):
+                # the geometric one preserves the diagonal +-1 form, the canonical one is still its dual (and preserves the inverse form)
+                if np.min(np.abs(np.linalg.eigvalsh(Bexp_g))) > 1e-6:
+                    geo_d = G.geometric_representation(diagonalize=True)
+                    can_d = G.canonical_representation(diagonalize=True)
+                    D = None
+                    for g1 in gens:
+                        sd, cd = np.asarray(parse(geo_d, g1), dtype=float), np.asarray(parse(can_d, g1), dtype=float)
+                        if D is None:
+                            # the form preserved by the diagonalised generators: solve from the definition W^T B W with W from the library's own
+                            # diagonalisation is avoided; instead D must be a diagonal +-1 matrix of the signature of B preserved by every generator
+                            ev_ = np.linalg.eigvalsh(Bexp_g)
+                            D = np.diag([-1.0] * int((ev_ < 0).sum()) + [1.0] * int((ev_ > 0).sum()))
+                        if not np.all(np.abs(sd @ sd - np.eye(rank)) <= 1e-8) or not np.all(np.abs(cd @ cd - np.eye(rank)) <= 1e-8):
+                            rep.fail("generator_involution", f"{g1} (diagonalize=True)", {**inp, "route": route, "diagonalize": True}); return
+                        if not np.all(np.abs(sd.T @ D @ sd - D) <= 1e-7 * (1 + np.max(np.abs(sd)) ** 2)):
+                            rep.fail("geometric_preserves_cosine_form", f"{g1}: diagonalize=True, the form diag{np.diag(D).tolist()} is not preserved", {**inp, "route": route, "diagonalize": True}); return
+                        if not np.all(np.abs(cd @ sd.T - np.eye(rank)) <= 1e-7 * (1 + np.max(np.abs(sd)) * np.max(np.abs(cd)))):
+                            rep.fail("canonical_is_dual_of_geometric", f"{g1} (diagonalize=True)", {**inp, "route": route, "diagonalize": True}); return
+                    w2 = gens[0] + gens[-1] if route != "matrix_alphanum" else None
+                    if w2:
+                        if not np.all(np.abs(np.asarray(can_d[w2], dtype=float) @ np.asarray(geo_d[w2], dtype=float).T - np.eye(rank)) <= 1e-6 * (1 + np.max(np.abs(np.asarray(geo_d[w2], dtype=float))) ** 2)):
+                            rep.fail("canonical_is_dual_of_geometric", f"word {w2} (diagonalize=True)", {**inp, "route": route, "diagonalize": True}); return
                 # the caller owns what a lookup returns: scribbling on a returned matrix does not change the representation
                 for rname, r_ in (("geometric", geo), ("canonical", can)):
                     for g1 in gens:
